@@ -183,6 +183,11 @@ def _ensure_object_loader(context, saved_state):
     """loader precedence: the context's, else the one recorded in the saved state, else the global default"""
     requires(context is None or (isinstance(context, LoadSaveContext) and wf_lsc(context)))
     requires(wf_state(saved_state))
+    # the class recorded in a saved state is a user-defined loader class (an object of the heap, not one of the classes
+    # of the class table): instantiating it is a call into user code
+    requires(implies(has_custom_meta(saved_state, 'object_loader'),
+                     is_heap_obj(uf('loaded', ghost_const('default_loader'), custom_meta(saved_state, 'object_loader')))
+                     and not is_function(uf('loaded', ghost_const('default_loader'), custom_meta(saved_state, 'object_loader')))))
     modifies(all_heap)
     has_ctx = context is not None and old(context.loader) is not None
     recorded = old(has_custom_meta(saved_state, 'object_loader'))
